@@ -43,7 +43,9 @@ def parse(abbr: str, config: Config):
         config.user_config['text'] = None
 
     snippets(abbr, config)
-    walk(abbr, transform, config)
+    # BEM data of visited nodes lives as long as this walk, not longer
+    bem_lookup = {}
+    walk(abbr, lambda node, ancestors, cfg: transform(node, ancestors, cfg, bem_lookup), config)
     config.user_config['text'] = text
     return abbr
 
@@ -54,7 +56,7 @@ def stringify(abbr: Abbreviation, config: Config):
     return formatter(abbr, config)
 
 
-def transform(node: AbbreviationNode, ancestors: list, config: Config):
+def transform(node: AbbreviationNode, ancestors: list, config: Config, bem_lookup: dict=None):
     "Modifies given node and prepares it for output"
     implicit_tag(node, ancestors, config)
     attributes(node, config)
@@ -67,4 +69,4 @@ def transform(node: AbbreviationNode, ancestors: list, config: Config):
         label(node)
 
     if config.options.get('bem.enabled'):
-        bem(node, ancestors, config)
+        bem(node, ancestors, config, bem_lookup)
